@@ -8,6 +8,7 @@ import (
 
 	"github.com/miekg/dns"
 	"github.com/semihalev/sdns/internal/dnsname"
+	"github.com/semihalev/sdns/internal/dnsutil"
 	"github.com/semihalev/zlog/v2"
 )
 
@@ -206,4 +207,60 @@ func ReleaseConn(co *Conn) {
 	co.Conn = nil
 
 	connPool.Put(co)
+}
+
+// answerChain returns the records of an upstream answer section that answer
+// q from within the bailiwick of the servers that sent it: the RRsets owned
+// by the query name, and by each name its CNAME/DNAME chain leads to for as
+// long as that name stays at or below zone. Everything else in the section —
+// a record for an unrelated owner, the "answer" to an alias target the sender
+// has no authority over — is data nobody asked this server for, and relaying
+// it to the client (or chasing from it) would be trusting the sender outside
+// its zone. A target that leaves the zone is resolved by the alias chase, from
+// the servers that are authoritative for it.
+func answerChain(q dns.Question, zone string, answer []dns.RR) []dns.RR {
+	zone = dns.CanonicalName(zone)
+	cur := dns.CanonicalName(q.Name)
+	keep := make([]bool, len(answer))
+	kept := 0
+	for hops := 0; hops <= len(answer); hops++ {
+		next := ""
+		for i, rr := range answer {
+			h := rr.Header()
+			owner := dns.CanonicalName(h.Name)
+			if owner == cur {
+				if !keep[i] {
+					keep[i] = true
+					kept++
+				}
+				if c, ok := rr.(*dns.CNAME); ok && q.Qtype != dns.TypeCNAME {
+					next = dns.CanonicalName(c.Target)
+				}
+				continue
+			}
+			// The DNAME (and its signature) a synthesized CNAME at cur came from.
+			covers := h.Rrtype == dns.TypeDNAME
+			if sig, ok := rr.(*dns.RRSIG); ok && sig.TypeCovered == dns.TypeDNAME {
+				covers = true
+			}
+			if covers && !keep[i] && dns.CountLabel(cur) > dns.CountLabel(owner) && dns.IsSubDomain(owner, cur) {
+				keep[i] = true
+				kept++
+			}
+		}
+		if next == "" || next == cur || !dnsutil.NameInZone(next, zone) {
+			break
+		}
+		cur = next
+	}
+	if kept == len(answer) {
+		return answer
+	}
+	out := make([]dns.RR, 0, kept)
+	for i, rr := range answer {
+		if keep[i] {
+			out = append(out, rr)
+		}
+	}
+	return out
 }
